@@ -98,6 +98,23 @@ Outcome body(const Case &c) {
   // boundary blocks
   std::vector<uint64_t> bnd = {0, 1, 2, 3, 4, 11, 12, 13, 12 + apb - 1, 12 + apb, 12 + apb + 1, 12 + 2 * apb - 1, 12 + 2 * apb, 12 + 2 * apb + 1, 12 + 3 * apb, 12 + apb + 5 * apb,
                                12 + apb + apb * apb - 1, 12 + apb + apb * apb, 12 + apb + apb * apb + 1, 339, 340, 341, 680, 32767, 32768, 32769, 1ULL << cbits, (2ULL << cbits) - 1, 15, 16, 17};
+  // templates whose f0 is pre-populated (every stride-th block holds data: one extent per block, so the extent tree is 2 levels deep): "$PBT_DIR/tpl<k>.prefill" = "<nblocks> <stride>"
+  {
+    FILE *pf = fopen((std::string(dir) + "/tpl" + str(tpl) + ".prefill").c_str(), "r");
+    if (pf) {
+      unsigned long n = 0, stride = 2;
+      if (fscanf(pf, "%lu %lu", &n, &stride) == 2 && n > 0) {
+        std::vector<unsigned char> blkbuf(bs);
+        for (uint64_t k = 0; k < n; k++) { uint64_t b = k * stride; memset(blkbuf.data(), (int)(((b * 7 + 3) & 0xff) | 1), bs); M[0].write(b * bs, blkbuf.data(), bs); }
+        M[0].size = ((n - 1) * stride + 1) * bs;
+        uint64_t L = (bs - 12) / 12;   // entries per extent tree block
+        for (uint64_t j : {(uint64_t)1, (uint64_t)2, L - 1, L, L + 1, L + 2}) { uint64_t lb = stride * L * j; if (lb < n * stride) { bnd.push_back(lb); bnd.push_back(lb + stride); bnd.push_back(lb - stride); } }
+        bnd.push_back((n - 1) * stride); bnd.push_back(n * stride / 2);
+        count("tpl:prefilled-deep-extent-tree");
+      }
+      fclose(pf);
+    }
+  }
   auto blk_of = [&](i64 bidx) -> uint64_t { if (bidx < 0) bidx = -bidx; if (bidx >= 100) return (uint64_t)(bidx - 100) % 600; return bnd[bidx % bnd.size()]; };
   auto get_fh = [&](int f, errcode_t *err) -> ext2_file_t { if (!H.fh[f]) { *err = ext2fs_file_open(H.fs, ino[f], EXT2_FILE_WRITE, &H.fh[f]); if (*err) H.fh[f] = nullptr; } return H.fh[f]; };
   auto close_fh = [&](int f) -> errcode_t { errcode_t r = 0; if (H.fh[f]) { r = ext2fs_file_close(H.fh[f]); H.fh[f] = nullptr; } return r; };
@@ -237,11 +254,11 @@ rc::Gen<Case> genCase() {
     int nfiles = *gen::weightedElement<int>({{2, 1}, {2, 2}, {1, 3}});
     // a few favourite positions per case so that ops overlap
     std::vector<i64> fav; int nf = *range<int>(1, 4);
-    for (int i = 0; i < nf; i++) fav.push_back(*gen::weightedOneOf<i64>({{3, range<i64>(0, 31)}, {2, range<i64>(100, 130)}, {1, range<i64>(100, 700)}}));
+    for (int i = 0; i < nf; i++) fav.push_back(*gen::weightedOneOf<i64>({{3, range<i64>(0, 63)}, {2, range<i64>(100, 130)}, {1, range<i64>(100, 700)}}));
     for (int i = 0; i < nops; i++) {
       int k = *gen::weightedElement<int>({{12, 0}, {8, 1}, {3, 2}, {4, 3}, {3, 4}, {1, 5}, {2, 6}, {1, 7}});
       i64 f = *range<i64>(0, nfiles);
-      i64 bidx = *gen::weightedOneOf<i64>({{3, gen::elementOf(fav)}, {1, range<i64>(0, 31)}, {1, range<i64>(100, 700)}});
+      i64 bidx = *gen::weightedOneOf<i64>({{3, gen::elementOf(fav)}, {1, range<i64>(0, 63)}, {1, range<i64>(100, 700)}});
       i64 delta = *gen::weightedOneOf<i64>({{3, gen::element<i64>(0, 0, -1, 1, -3, 5)}, {2, range<i64>(-5000, 5000)}});
       i64 len = *gen::weightedOneOf<i64>({{3, range<i64>(1, 64)}, {3, range<i64>(64, 6000)}, {2, range<i64>(6000, 70000)}, {1, gen::element<i64>(1024, 4096, 1023, 4097, 65536, 12288)}});
       c.ops.push_back({k, f, bidx, delta, len, *range<i64>(0, 1 << 20)});
